@@ -117,14 +117,14 @@ impl ValueVector {
 
     /// Sets the value at index to null.
     pub fn set_null(&mut self, index: usize) {
-        if self.validity.is_none() {
-            self.validity = Some(vec![true; self.len]);
+        // The bitmap is allocated lazily and pushes do not extend it: grow it up to the
+        // index being marked, so a null after the first one is recorded too.
+        let needed = self.len.max(index + 1);
+        let validity = self.validity.get_or_insert_with(|| vec![true; needed]);
+        if validity.len() < needed {
+            validity.resize(needed, true);
         }
-        if let Some(validity) = &mut self.validity
-            && index < validity.len()
-        {
-            validity[index] = false;
-        }
+        validity[index] = false;
     }
 
     /// Pushes a boolean value.
